@@ -3,12 +3,19 @@ import HgVerif.Model.Dispatch
 Specification-side definitions and helper lemmas for C19 (operator resolution).
 
 * `MapLe`            : one `ResolutionMap` extends another (every binding is kept).
-* `inst p m c`       : *checking-mode* reading of a pattern: under the fixed bindings `m` the input
-                       pattern `p` accepts a port of schema `c`.  This is the specification the
-                       matcher is sound against; it never binds anything.
+* `instG x p m c`    : *checking-mode* reading of a pattern: under the fixed bindings `m` the input
+                       pattern `p` accepts a port of schema `c`.  It never binds anything.  A whole-time-series
+                       variable `~T` must be bound to EXACTLY the schema at its position (identity: same
+                       name, same fields).  The flag only concerns a `TSB[~S]` schema variable: `x = true`
+                       (`instX`, the strict reading) demands identity there too, `x = false` (`inst`, what
+                       the code does) equivalence of the field lists.  The matcher is sound against `inst`
+                       and complete for `instX`; the two coincide on patterns without a schema variable and
+                       on name-free schemas.
+* `equiv` lemmas     : reflexivity, compatibility with `derefAll`, `equiv` = equality on name-free schemas.
 * `wildEq d c`       : schema `d` equals schema `c` except that `SIGNAL` in `d` stands for anything
                        and a `TSL` of size `0` in `d` stands for any size (the two wildcards the
-                       code's resolved input types can contain).
+                       code's resolved input types can contain); bundle NAMES are not compared (an
+                       un-named pattern resolves to the un-named bundle whatever name the argument had).
 * sorting lemmas for `stableSort`, the decision step `decide_`, and the per-key reading of the rank
   accumulator (`keyRankT`).
 -/
@@ -77,13 +84,17 @@ def instSz (p : SizeP) (m : RMap) (n : Nat) : Bool :=
   | .fixed k => decide (k = 0 ∨ k = n)
   | .var v cs => decide (m.findSz v = some n) && allowed cs n
 
+/-- how a re-used `TSB[~S]` schema variable is compared with the bundle at its position: the strict
+    reading (`true`) by identity, the code (`false`) with `time_series_schema_equivalent` -/
+def svOk (strict : Bool) (b c : CT) : Bool := if strict then decide (b = c) else equiv b c
+
 mutual
 /-- under the bindings `m`, the input pattern `p` accepts a port of schema `c` -/
-def inst (p : TP) (m : RMap) (c : CT) : Bool :=
+def instG (x : Bool) (p : TP) (m : RMap) (c : CT) : Bool :=
   match p with
   | .signal => true
-  | .ref t => inst t m (stripOne c)
-  | .var n cs => decide (m.findTs n = some (stripRefs c)) && allowed cs (stripRefs c)
+  | .ref t => instG x t m (stripOne c)
+  | .var n cs => decide (m.findTs n = some (stripRefs c)) && allowedT cs (stripRefs c)
   | .conc pc => accepts pc (stripRefs c)
   | .ts s =>
     match stripRefs c with
@@ -95,45 +106,57 @@ def inst (p : TP) (m : RMap) (c : CT) : Bool :=
     | _ => false
   | .tsl e sz =>
     match stripRefs c with
-    | .tsl ce n => instSz sz m n && inst e m ce
+    | .tsl ce n => instSz sz m n && instG x e m ce
     | _ => false
   | .tsd k v =>
     match stripRefs c with
-    | .tsd ck cv => instS k m ck && inst v m cv
+    | .tsd ck cv => instS k m ck && instG x v m cv
     | _ => false
   | .tsw s w =>
     match stripRefs c with
     | .tsw a period minp => instS s m a && windowOk w period minp
     | _ => false
-  | .tsb fs =>
+  | .tsb pn fs =>
     match stripRefs c with
-    | .tsb cfs => instFields fs m cfs
+    | .tsb cn cfs => nameOk pn cn && instFieldsG x fs m cfs
     | _ => false
   | .tsbVar n =>
     match stripRefs c with
-    | .tsb cfs => decide (m.findTs n = some (.tsb cfs))
+    | .tsb cn cfs =>
+      match m.findTs n with
+      | some b => svOk x b (.tsb cn cfs)
+      | none => false
     | _ => false
-def instFields (fs : PFields) (m : RMap) (cfs : CFields) : Bool :=
+def instFieldsG (x : Bool) (fs : PFields) (m : RMap) (cfs : CFields) : Bool :=
   match fs, cfs with
   | .nil, .nil => true
-  | .cons f p rest, .cons g c crest => decide (f = g) && inst p m c && instFields rest m crest
+  | .cons f p rest, .cons g c crest => decide (f = g) && instG x p m c && instFieldsG x rest m crest
   | .nil, .cons _ _ _ => false
   | .cons _ _ _, .nil => false
 end
 
 /-- a parameter accepts an argument under the bindings `m` -/
-def instParam (p : Param) (m : RMap) (a : Arg) : Bool :=
+def instParamG (x : Bool) (p : Param) (m : RMap) (a : Arg) : Bool :=
   match p, a with
-  | .input t, .ts c => inst t m c
+  | .input t, .ts c => instG x t m c
   | .scalar (.conc s), .sc a => decide (a = s) || coercible a s
   | .scalar (.var n cs), .sc a => instS (.var n cs) m a
   | _, _ => false
 
 /-- every parameter position accepts its argument under the *one* map `m` -/
-def instArgs : List Param → List Arg → RMap → Bool
+def instArgsG (x : Bool) : List Param → List Arg → RMap → Bool
   | [], [], _ => true
-  | p :: ps, a :: as, m => instParam p m a && instArgs ps as m
+  | p :: ps, a :: as, m => instParamG x p m a && instArgsG x ps as m
   | _, _, _ => false
+
+/-- the code's reading (a re-used `TSB[~S]` compares field lists) -/
+abbrev inst (p : TP) (m : RMap) (c : CT) : Bool := instG false p m c
+abbrev instFields (fs : PFields) (m : RMap) (cfs : CFields) : Bool := instFieldsG false fs m cfs
+abbrev instParam (p : Param) (m : RMap) (a : Arg) : Bool := instParamG false p m a
+abbrev instArgs (ps : List Param) (as : List Arg) (m : RMap) : Bool := instArgsG false ps as m
+/-- the strict reading (every variable, `TSB[~S]` included, is bound to exactly the type at its position) -/
+abbrev instX (p : TP) (m : RMap) (c : CT) : Bool := instG true p m c
+abbrev instArgsX (ps : List Param) (as : List Arg) (m : RMap) : Bool := instArgsG true ps as m
 
 /-! ### every variable of a pattern is bound -/
 
@@ -158,7 +181,7 @@ def bound (p : TP) (m : RMap) : Bool :=
   | .tsw s _ => boundS s m
   | .tsl e sz => bound e m && boundSz sz m
   | .tsd k v => boundS k m && bound v m
-  | .tsb fs => boundFields fs m
+  | .tsb _ fs => boundFields fs m
   | .tsbVar n => (m.findTs n).isSome
   | .ref t => bound t m
 def boundFields (fs : PFields) (m : RMap) : Bool :=
@@ -186,85 +209,90 @@ theorem instSz_mono {p : SizeP} {m m' : RMap} {n : Nat} (h : MapLe m m') (hi : i
     exact ⟨h.sz _ _ hi.1, hi.2⟩
 
 mutual
-theorem inst_mono {m m' : RMap} (h : MapLe m m') : ∀ (p : TP) (c : CT), inst p m c = true → inst p m' c = true
-  | .signal, _, _ => by simp [inst]
+theorem inst_mono {x : Bool} {m m' : RMap} (h : MapLe m m') :
+    ∀ (p : TP) (c : CT), instG x p m c = true → instG x p m' c = true
+  | .signal, _, _ => by simp [instG]
   | .ref t, c, hi => by
-    simp only [inst] at *
+    simp only [instG] at *
     exact inst_mono h t _ hi
   | .var n cs, c, hi => by
-    simp only [inst, Bool.and_eq_true, decide_eq_true_eq] at *
+    simp only [instG, Bool.and_eq_true, decide_eq_true_eq] at *
     exact ⟨h.ts _ _ hi.1, hi.2⟩
-  | .conc pc, c, hi => by simpa [inst] using hi
+  | .conc pc, c, hi => by simpa [instG] using hi
   | .ts s, c, hi => by
-    simp only [inst] at *
+    simp only [instG] at *
     split at hi <;> simp_all [instS_mono h]
   | .tss s, c, hi => by
-    simp only [inst] at *
+    simp only [instG] at *
     split at hi <;> simp_all [instS_mono h]
   | .tsl e sz, c, hi => by
-    simp only [inst] at *
+    simp only [instG] at *
     split at hi
     · simp only [Bool.and_eq_true] at hi ⊢
       exact ⟨instSz_mono h hi.1, inst_mono h e _ hi.2⟩
     · cases hi
   | .tsd k v, c, hi => by
-    simp only [inst] at *
+    simp only [instG] at *
     split at hi
     · simp only [Bool.and_eq_true] at hi ⊢
       exact ⟨instS_mono h hi.1, inst_mono h v _ hi.2⟩
     · cases hi
   | .tsw s w, c, hi => by
-    simp only [inst] at *
+    simp only [instG] at *
     split at hi
     · simp only [Bool.and_eq_true] at hi ⊢
       exact ⟨instS_mono h hi.1, hi.2⟩
     · cases hi
-  | .tsb fs, c, hi => by
-    simp only [inst] at *
+  | .tsb pn fs, c, hi => by
+    simp only [instG] at *
     split at hi
-    · exact instFields_mono h fs _ hi
+    · simp only [Bool.and_eq_true] at hi ⊢
+      exact ⟨hi.1, instFields_mono h fs _ hi.2⟩
     · cases hi
   | .tsbVar n, c, hi => by
-    simp only [inst] at *
+    simp only [instG] at *
     split at hi
-    · simp only [decide_eq_true_eq] at hi ⊢
-      exact h.ts _ _ hi
+    · split at hi
+      · rename_i b hb
+        rw [h.ts _ _ hb]
+        exact hi
+      · cases hi
     · cases hi
-theorem instFields_mono {m m' : RMap} (h : MapLe m m') :
-    ∀ (fs : PFields) (cfs : CFields), instFields fs m cfs = true → instFields fs m' cfs = true
-  | .nil, .nil, _ => by simp [instFields]
+theorem instFields_mono {x : Bool} {m m' : RMap} (h : MapLe m m') :
+    ∀ (fs : PFields) (cfs : CFields), instFieldsG x fs m cfs = true → instFieldsG x fs m' cfs = true
+  | .nil, .nil, _ => by simp [instFieldsG]
   | .cons f p rest, .cons g c crest, hi => by
-    simp only [instFields, Bool.and_eq_true, decide_eq_true_eq] at *
+    simp only [instFieldsG, Bool.and_eq_true, decide_eq_true_eq] at *
     exact ⟨⟨hi.1.1, inst_mono h p c hi.1.2⟩, instFields_mono h rest crest hi.2⟩
-  | .nil, .cons _ _ _, hi => by simp [instFields] at hi
-  | .cons _ _ _, .nil, hi => by simp [instFields] at hi
+  | .nil, .cons _ _ _, hi => by simp [instFieldsG] at hi
+  | .cons _ _ _, .nil, hi => by simp [instFieldsG] at hi
 end
 
-theorem instParam_mono {m m' : RMap} (h : MapLe m m') {p : Param} {a : Arg}
-    (hi : instParam p m a = true) : instParam p m' a = true := by
+theorem instParam_mono {x : Bool} {m m' : RMap} (h : MapLe m m') {p : Param} {a : Arg}
+    (hi : instParamG x p m a = true) : instParamG x p m' a = true := by
   cases p with
   | input t =>
     cases a with
     | ts c => exact inst_mono h t c hi
-    | sc s => simp [instParam] at hi
+    | sc s => simp [instParamG] at hi
   | scalar sp =>
     cases a with
-    | ts c => cases sp <;> simp [instParam] at hi
+    | ts c => cases sp <;> simp [instParamG] at hi
     | sc s =>
       cases sp with
       | conc k => exact hi
       | var n cs =>
-        simp only [instParam] at hi ⊢
+        simp only [instParamG] at hi ⊢
         exact instS_mono h hi
 
-theorem instArgs_mono {m m' : RMap} (h : MapLe m m') :
-    ∀ (ps : List Param) (as : List Arg), instArgs ps as m = true → instArgs ps as m' = true
-  | [], [], _ => by simp [instArgs]
+theorem instArgs_mono {x : Bool} {m m' : RMap} (h : MapLe m m') :
+    ∀ (ps : List Param) (as : List Arg), instArgsG x ps as m = true → instArgsG x ps as m' = true
+  | [], [], _ => by simp [instArgsG]
   | p :: ps, a :: as, hi => by
-    simp only [instArgs, Bool.and_eq_true] at *
+    simp only [instArgsG, Bool.and_eq_true] at *
     exact ⟨instParam_mono h hi.1, instArgs_mono h ps as hi.2⟩
-  | [], _ :: _, hi => by simp [instArgs] at hi
-  | _ :: _, [], hi => by simp [instArgs] at hi
+  | [], _ :: _, hi => by simp [instArgsG] at hi
+  | _ :: _, [], hi => by simp [instArgsG] at hi
 
 /-! ### `inst` implies every variable is bound -/
 
@@ -283,63 +311,92 @@ theorem instSz_bound {p : SizeP} {m : RMap} {n : Nat} (hi : instSz p m n = true)
     simp [boundSz, hi.1]
 
 mutual
-theorem inst_bound {m : RMap} : ∀ (p : TP) (c : CT), inst p m c = true → bound p m = true
+theorem inst_bound {x : Bool} {m : RMap} : ∀ (p : TP) (c : CT), instG x p m c = true → bound p m = true
   | .signal, _, _ => by simp [bound]
   | .ref t, c, hi => by
-    simp only [inst, bound] at *
+    simp only [instG, bound] at *
     exact inst_bound t _ hi
   | .var n cs, c, hi => by
-    simp only [inst, Bool.and_eq_true, decide_eq_true_eq] at hi
+    simp only [instG, Bool.and_eq_true, decide_eq_true_eq] at hi
     simp [bound, hi.1]
   | .conc pc, c, hi => by simp [bound]
   | .ts s, c, hi => by
-    simp only [inst, bound] at *
+    simp only [instG, bound] at *
     split at hi
     · exact instS_bound hi
     · cases hi
   | .tss s, c, hi => by
-    simp only [inst, bound] at *
+    simp only [instG, bound] at *
     split at hi
     · exact instS_bound hi
     · cases hi
   | .tsl e sz, c, hi => by
-    simp only [inst, bound] at *
+    simp only [instG, bound] at *
     split at hi
     · simp only [Bool.and_eq_true] at hi ⊢
       exact ⟨inst_bound e _ hi.2, instSz_bound hi.1⟩
     · cases hi
   | .tsd k v, c, hi => by
-    simp only [inst, bound] at *
+    simp only [instG, bound] at *
     split at hi
     · simp only [Bool.and_eq_true] at hi ⊢
       exact ⟨instS_bound hi.1, inst_bound v _ hi.2⟩
     · cases hi
   | .tsw s w, c, hi => by
-    simp only [inst, bound] at *
+    simp only [instG, bound] at *
     split at hi
     · simp only [Bool.and_eq_true] at hi
       exact instS_bound hi.1
     · cases hi
-  | .tsb fs, c, hi => by
-    simp only [inst, bound] at *
+  | .tsb pn fs, c, hi => by
+    simp only [instG, bound] at *
     split at hi
-    · exact instFields_bound fs _ hi
+    · simp only [Bool.and_eq_true] at hi
+      exact instFields_bound fs _ hi.2
     · cases hi
   | .tsbVar n, c, hi => by
-    simp only [inst, bound] at *
+    simp only [instG, bound] at *
     split at hi
-    · simp only [decide_eq_true_eq] at hi
-      simp [hi]
+    · split at hi
+      · rename_i b hb
+        simp [hb]
+      · cases hi
     · cases hi
-theorem instFields_bound {m : RMap} :
-    ∀ (fs : PFields) (cfs : CFields), instFields fs m cfs = true → boundFields fs m = true
+theorem instFields_bound {x : Bool} {m : RMap} :
+    ∀ (fs : PFields) (cfs : CFields), instFieldsG x fs m cfs = true → boundFields fs m = true
   | .nil, .nil, _ => by simp [boundFields]
   | .cons f p rest, .cons g c crest, hi => by
-    simp only [instFields, boundFields, Bool.and_eq_true, decide_eq_true_eq] at *
+    simp only [instFieldsG, boundFields, Bool.and_eq_true, decide_eq_true_eq] at *
     exact ⟨inst_bound p c hi.1.2, instFields_bound rest crest hi.2⟩
-  | .nil, .cons _ _ _, hi => by simp [instFields] at hi
-  | .cons _ _ _, .nil, hi => by simp [instFields] at hi
+  | .nil, .cons _ _ _, hi => by simp [instFieldsG] at hi
+  | .cons _ _ _, .nil, hi => by simp [instFieldsG] at hi
 end
+
+/-! ### `time_series_schema_equivalent` -/
+
+mutual
+theorem equiv_refl : ∀ c : CT, equiv c c = true
+  | .ts _ | .tss _ | .tsw _ _ _ | .signal => by simp [equiv]
+  | .tsl e n => by simp [equiv, equiv_refl e]
+  | .tsd k v => by simp [equiv, equiv_refl v]
+  | .tsb nm fs => by simp [equiv, equivFields_refl fs]
+  | .ref t => by simp [equiv, equiv_refl t]
+theorem equivFields_refl : ∀ fs : CFields, equivFields fs fs = true
+  | .nil => by simp [equivFields]
+  | .cons f t r => by simp [equivFields, equiv_refl t, equivFields_refl r]
+end
+
+theorem svOk_equiv {x : Bool} {b c : CT} (h : svOk x b c = true) : equiv b c = true := by
+  cases x with
+  | false => simpa [svOk] using h
+  | true =>
+    simp only [svOk, if_true, decide_eq_true_eq] at h
+    subst h
+    exact equiv_refl _
+
+/-- the strict reading implies the code's reading … -/
+theorem svOk_weaken {b c : CT} (h : svOk true b c = true) : svOk false b c = true := by
+  simpa [svOk] using svOk_equiv h
 
 /-! ### soundness of the leaf matchers -/
 
@@ -394,7 +451,7 @@ theorem sizeMatch_sound {p : SizeP} {n : Nat} {m m' : RMap} (h : sizeMatch p n m
       · cases h
 
 theorem varMatch_sound {n : Name} {cs : List CT} {c : CT} {m m' : RMap} (h : varMatch n cs c m = some m') :
-    MapLe m m' ∧ m'.findTs n = some c ∧ allowed cs c = true := by
+    MapLe m m' ∧ m'.findTs n = some c ∧ allowedT cs c = true := by
   simp only [varMatch] at h
   split at h
   · rename_i b hb
@@ -418,33 +475,33 @@ theorem inMatch_sound : ∀ (p : TP) (c : CT) (m m' : RMap), inMatch p c m = som
   | .signal, c, m, m', h => by
     simp only [inMatch, Option.some.injEq] at h
     subst h
-    exact ⟨MapLe.refl _, by simp [inst]⟩
+    exact ⟨MapLe.refl _, by simp [instG]⟩
   | .ref t, c, m, m', h => by
     simp only [inMatch] at h
     have := inMatch_sound t _ m m' h
-    exact ⟨this.1, by simpa [inst] using this.2⟩
+    exact ⟨this.1, by simpa [instG] using this.2⟩
   | .var n cs, c, m, m', h => by
     simp only [inMatch] at h
     have := varMatch_sound h
-    exact ⟨this.1, by simp [inst, this.2.1, this.2.2]⟩
+    exact ⟨this.1, by simp [instG, this.2.1, this.2.2]⟩
   | .conc pc, c, m, m', h => by
     simp only [inMatch] at h
     split at h
-    · cases h; exact ⟨MapLe.refl _, by simpa [inst]⟩
+    · cases h; exact ⟨MapLe.refl _, by simpa [instG]⟩
     · cases h
   | .ts s, c, m, m', h => by
     simp only [inMatch] at h
     split at h
     · rename_i a hc
       have := scalarMatch_sound h
-      exact ⟨this.1, by simp [inst, hc, this.2]⟩
+      exact ⟨this.1, by simp [instG, hc, this.2]⟩
     · cases h
   | .tss s, c, m, m', h => by
     simp only [inMatch] at h
     split at h
     · rename_i a hc
       have := scalarMatch_sound h
-      exact ⟨this.1, by simp [inst, hc, this.2]⟩
+      exact ⟨this.1, by simp [instG, hc, this.2]⟩
     · cases h
   | .tsl e sz, c, m, m', h => by
     simp only [inMatch] at h
@@ -454,7 +511,7 @@ theorem inMatch_sound : ∀ (p : TP) (c : CT) (m m' : RMap), inMatch p c m = som
       · rename_i m1 h1
         have a := sizeMatch_sound h1
         have b := inMatch_sound e ce m1 m' h
-        exact ⟨a.1.trans b.1, by simp [inst, hc, instSz_mono b.1 a.2, b.2]⟩
+        exact ⟨a.1.trans b.1, by simp [instG, hc, instSz_mono b.1 a.2, b.2]⟩
       · cases h
     · cases h
   | .tsd k v, c, m, m', h => by
@@ -465,7 +522,7 @@ theorem inMatch_sound : ∀ (p : TP) (c : CT) (m m' : RMap), inMatch p c m = som
       · rename_i m1 h1
         have a := scalarMatch_sound h1
         have b := inMatch_sound v cv m1 m' h
-        exact ⟨a.1.trans b.1, by simp [inst, hc, instS_mono b.1 a.2, b.2]⟩
+        exact ⟨a.1.trans b.1, by simp [instG, hc, instS_mono b.1 a.2, b.2]⟩
       · cases h
     · cases h
   | .tsw s w, c, m, m', h => by
@@ -478,38 +535,41 @@ theorem inMatch_sound : ∀ (p : TP) (c : CT) (m m' : RMap), inMatch p c m = som
         split at h
         · rename_i hw
           cases h
-          exact ⟨a.1, by simp [inst, hc, a.2, hw]⟩
+          exact ⟨a.1, by simp [instG, hc, a.2, hw]⟩
         · cases h
       · cases h
     · cases h
-  | .tsb fs, c, m, m', h => by
+  | .tsb pn fs, c, m, m', h => by
     simp only [inMatch] at h
     split at h
-    · rename_i cfs hc
-      have := inMatchFields_sound fs cfs m m' h
-      exact ⟨this.1, by simp [inst, hc, this.2]⟩
+    · rename_i cn cfs hc
+      split at h
+      · rename_i hnm
+        have := inMatchFields_sound fs cfs m m' h
+        exact ⟨this.1, by simp [instG, hc, hnm, this.2]⟩
+      · cases h
     · cases h
   | .tsbVar n, c, m, m', h => by
     simp only [inMatch] at h
     split at h
-    · rename_i cfs hc
+    · rename_i cn cfs hc
       split at h
       · rename_i b hb
         split at h
         · rename_i hbc
           cases h
-          exact ⟨MapLe.refl _, by simp [inst, hc, hb, hbc]⟩
+          exact ⟨MapLe.refl _, by simp [instG, hc, hb, svOk, hbc]⟩
         · cases h
       · rename_i hb
         cases h
-        exact ⟨mapLe_bindTs _ hb, by simp [inst, hc]⟩
+        exact ⟨mapLe_bindTs _ hb, by simp [instG, hc, svOk, equiv_refl]⟩
     · cases h
 theorem inMatchFields_sound : ∀ (fs : PFields) (cfs : CFields) (m m' : RMap),
     inMatchFields fs cfs m = some m' → MapLe m m' ∧ instFields fs m' cfs = true
   | .nil, .nil, m, m', h => by
     simp only [inMatchFields, Option.some.injEq] at h
     subst h
-    exact ⟨MapLe.refl _, by simp [instFields]⟩
+    exact ⟨MapLe.refl _, by simp [instFieldsG]⟩
   | .cons f p rest, .cons g c crest, m, m', h => by
     simp only [inMatchFields] at h
     split at h
@@ -518,7 +578,7 @@ theorem inMatchFields_sound : ∀ (fs : PFields) (cfs : CFields) (m m' : RMap),
       · rename_i m1 h1
         have a := inMatch_sound p c m m1 h1
         have b := inMatchFields_sound rest crest m1 m' h
-        exact ⟨a.1.trans b.1, by simp [instFields, hfg, inst_mono b.1 p c a.2, b.2]⟩
+        exact ⟨a.1.trans b.1, by simp [instFieldsG, hfg, inst_mono b.1 p c a.2, b.2]⟩
       · cases h
     · cases h
   | .nil, .cons _ _ _, m, m', h => by simp [inMatchFields] at h
@@ -532,14 +592,14 @@ theorem matchArgs_sound' : ∀ (ps : List Param) (as : List Arg) (m : RMap) (adj
   | [], [], m, adj, m', adj', h => by
     simp only [matchArgs, Prod.mk.injEq, Option.some.injEq] at h
     obtain ⟨rfl, rfl⟩ := h
-    exact ⟨MapLe.refl _, by simp [instArgs], Nat.le_refl _⟩
+    exact ⟨MapLe.refl _, by simp [instArgsG], Nat.le_refl _⟩
   | .input p :: ps, .ts c :: as, m, adj, m', adj', h => by
     simp only [matchArgs] at h
     split at h
     · rename_i m1 h1
       have a := inMatch_sound p c m m1 h1
       have b := matchArgs_sound' ps as m1 adj m' adj' h
-      exact ⟨a.1.trans b.1, by simp [instArgs, instParam, inst_mono b.1 p c a.2, b.2.1], b.2.2⟩
+      exact ⟨a.1.trans b.1, by simp [instArgsG, instParamG, inst_mono b.1 p c a.2, b.2.1], b.2.2⟩
     · simp at h
   | .input _ :: _, .sc _ :: _, m, adj, m', adj', h => by simp [matchArgs] at h
   | .scalar _ :: _, .ts _ :: _, m, adj, m', adj', h => by simp [matchArgs] at h
@@ -548,11 +608,11 @@ theorem matchArgs_sound' : ∀ (ps : List Param) (as : List Arg) (m : RMap) (adj
     split at h
     · rename_i heq
       have b := matchArgs_sound' ps as m adj m' adj' h
-      exact ⟨b.1, by simp [instArgs, instParam, heq, b.2.1], b.2.2⟩
+      exact ⟨b.1, by simp [instArgsG, instParamG, heq, b.2.1], b.2.2⟩
     · split at h
       · rename_i hco
         have b := matchArgs_sound' ps as m (adj + 1) m' adj' h
-        exact ⟨b.1, by simp [instArgs, instParam, hco, b.2.1], by omega⟩
+        exact ⟨b.1, by simp [instArgsG, instParamG, hco, b.2.1], by omega⟩
       · simp at h
   | .scalar (.var n cs) :: ps, .sc a :: as, m, adj, m', adj', h => by
     simp only [matchArgs] at h
@@ -560,7 +620,7 @@ theorem matchArgs_sound' : ∀ (ps : List Param) (as : List Arg) (m : RMap) (adj
     · rename_i m1 h1
       have a := scalarMatch_sound h1
       have b := matchArgs_sound' ps as m1 adj m' adj' h
-      exact ⟨a.1.trans b.1, by simp [instArgs, instParam, instS_mono b.1 a.2, b.2.1], b.2.2⟩
+      exact ⟨a.1.trans b.1, by simp [instArgsG, instParamG, instS_mono b.1 a.2, b.2.1], b.2.2⟩
     · simp at h
   | [], _ :: _, m, adj, m', adj', h => by simp [matchArgs] at h
   | _ :: _, [], m, adj, m', adj', h => by simp [matchArgs] at h
@@ -628,7 +688,7 @@ theorem sizeMatch_complete {p : SizeP} {n : Nat} {m mf : RMap} (h : MapLe m mf) 
     | none => exact ⟨m.bindSz v n, by simp [hi.2], mapLe_bindSz_of h hi.1⟩
 
 theorem varMatch_complete {n : Name} {cs : List CT} {c : CT} {m mf : RMap} (h : MapLe m mf)
-    (hf : mf.findTs n = some c) (ha : allowed cs c = true) :
+    (hf : mf.findTs n = some c) (ha : allowedT cs c = true) :
     ∃ m', varMatch n cs c m = some m' ∧ MapLe m' mf := by
   simp only [varMatch]
   cases hb : m.findTs n with
@@ -640,20 +700,20 @@ theorem varMatch_complete {n : Name} {cs : List CT} {c : CT} {m mf : RMap} (h : 
   | none => exact ⟨m.bindTs n c, by simp [ha], mapLe_bindTs_of h hf⟩
 
 mutual
-theorem inMatch_complete : ∀ (p : TP) (c : CT) (m mf : RMap), MapLe m mf → inst p mf c = true →
+theorem inMatch_complete : ∀ (p : TP) (c : CT) (m mf : RMap), MapLe m mf → instX p mf c = true →
     ∃ m', inMatch p c m = some m' ∧ MapLe m' mf
   | .signal, c, m, mf, h, _ => ⟨m, by simp [inMatch], h⟩
   | .ref t, c, m, mf, h, hi => by
-    simp only [inst] at hi
+    simp only [instG] at hi
     simpa [inMatch] using inMatch_complete t _ m mf h hi
   | .var n cs, c, m, mf, h, hi => by
-    simp only [inst, Bool.and_eq_true, decide_eq_true_eq] at hi
+    simp only [instG, Bool.and_eq_true, decide_eq_true_eq] at hi
     simpa [inMatch] using varMatch_complete h hi.1 hi.2
   | .conc pc, c, m, mf, h, hi => by
-    simp only [inst] at hi
+    simp only [instG] at hi
     exact ⟨m, by simp [inMatch, hi], h⟩
   | .ts s, c, m, mf, h, hi => by
-    simp only [inst] at hi
+    simp only [instG] at hi
     simp only [inMatch]
     split at hi
     · rename_i a hc
@@ -661,7 +721,7 @@ theorem inMatch_complete : ∀ (p : TP) (c : CT) (m mf : RMap), MapLe m mf → i
       exact scalarMatch_complete h hi
     · cases hi
   | .tss s, c, m, mf, h, hi => by
-    simp only [inst] at hi
+    simp only [instG] at hi
     simp only [inMatch]
     split at hi
     · rename_i a hc
@@ -669,7 +729,7 @@ theorem inMatch_complete : ∀ (p : TP) (c : CT) (m mf : RMap), MapLe m mf → i
       exact scalarMatch_complete h hi
     · cases hi
   | .tsl e sz, c, m, mf, h, hi => by
-    simp only [inst] at hi
+    simp only [instG] at hi
     simp only [inMatch]
     split at hi
     · rename_i ce n hc
@@ -680,7 +740,7 @@ theorem inMatch_complete : ∀ (p : TP) (c : CT) (m mf : RMap), MapLe m mf → i
       exact ⟨m2, by simp [h1, h2], hle2⟩
     · cases hi
   | .tsd k v, c, m, mf, h, hi => by
-    simp only [inst] at hi
+    simp only [instG] at hi
     simp only [inMatch]
     split at hi
     · rename_i ck cv hc
@@ -691,7 +751,7 @@ theorem inMatch_complete : ∀ (p : TP) (c : CT) (m mf : RMap), MapLe m mf → i
       exact ⟨m2, by simp [h1, h2], hle2⟩
     · cases hi
   | .tsw s w, c, m, mf, h, hi => by
-    simp only [inst] at hi
+    simp only [instG] at hi
     simp only [inMatch]
     split at hi
     · rename_i a period minp hc
@@ -700,54 +760,60 @@ theorem inMatch_complete : ∀ (p : TP) (c : CT) (m mf : RMap), MapLe m mf → i
       obtain ⟨m1, h1, hle1⟩ := scalarMatch_complete h hi.1
       exact ⟨m1, by simp [h1, hi.2], hle1⟩
     · cases hi
-  | .tsb fs, c, m, mf, h, hi => by
-    simp only [inst] at hi
+  | .tsb pn fs, c, m, mf, h, hi => by
+    simp only [instG] at hi
     simp only [inMatch]
     split at hi
-    · rename_i cfs hc
+    · rename_i cn cfs hc
       rw [hc]
-      exact inMatchFields_complete fs cfs m mf h hi
+      simp only [Bool.and_eq_true] at hi
+      simp only [hi.1, if_true]
+      exact inMatchFields_complete fs cfs m mf h hi.2
     · cases hi
   | .tsbVar n, c, m, mf, h, hi => by
-    simp only [inst] at hi
+    simp only [instG] at hi
     simp only [inMatch]
     split at hi
-    · rename_i cfs hc
+    · rename_i cn cfs hc
       rw [hc]
-      simp only [decide_eq_true_eq] at hi
-      cases hb : m.findTs n with
-      | some b =>
-        have := h.ts n b hb
-        rw [hi] at this
-        cases this
-        exact ⟨m, by simp, h⟩
-      | none => exact ⟨m.bindTs n (.tsb cfs), by simp, mapLe_bindTs_of h hi⟩
+      split at hi
+      · rename_i bf hbf
+        simp only [svOk, if_true, decide_eq_true_eq] at hi
+        subst hi
+        cases hb : m.findTs n with
+        | some b =>
+          have := h.ts n b hb
+          rw [hbf] at this
+          cases this
+          exact ⟨m, by simp [equiv_refl], h⟩
+        | none => exact ⟨m.bindTs n (.tsb cn cfs), by simp, mapLe_bindTs_of h hbf⟩
+      · cases hi
     · cases hi
 theorem inMatchFields_complete : ∀ (fs : PFields) (cfs : CFields) (m mf : RMap), MapLe m mf →
-    instFields fs mf cfs = true → ∃ m', inMatchFields fs cfs m = some m' ∧ MapLe m' mf
+    instFieldsG true fs mf cfs = true → ∃ m', inMatchFields fs cfs m = some m' ∧ MapLe m' mf
   | .nil, .nil, m, mf, h, _ => ⟨m, by simp [inMatchFields], h⟩
   | .cons f p rest, .cons g c crest, m, mf, h, hi => by
-    simp only [instFields, Bool.and_eq_true, decide_eq_true_eq] at hi
+    simp only [instFieldsG, Bool.and_eq_true, decide_eq_true_eq] at hi
     obtain ⟨m1, h1, hle1⟩ := inMatch_complete p c m mf h hi.1.2
     obtain ⟨m2, h2, hle2⟩ := inMatchFields_complete rest crest m1 mf hle1 hi.2
     exact ⟨m2, by simp [inMatchFields, hi.1.1, h1, h2], hle2⟩
-  | .nil, .cons _ _ _, m, mf, _, hi => by simp [instFields] at hi
-  | .cons _ _ _, .nil, m, mf, _, hi => by simp [instFields] at hi
+  | .nil, .cons _ _ _, m, mf, _, hi => by simp [instFieldsG] at hi
+  | .cons _ _ _, .nil, m, mf, _, hi => by simp [instFieldsG] at hi
 end
 
 /-- completeness of the argument loop -/
 theorem matchArgs_complete' : ∀ (ps : List Param) (as : List Arg) (m mf : RMap) (adj : Nat), MapLe m mf →
-    instArgs ps as mf = true → ∃ m' adj', matchArgs ps as m adj = (some m', adj') ∧ MapLe m' mf
+    instArgsX ps as mf = true → ∃ m' adj', matchArgs ps as m adj = (some m', adj') ∧ MapLe m' mf
   | [], [], m, mf, adj, h, _ => ⟨m, adj, by simp [matchArgs], h⟩
   | .input p :: ps, .ts c :: as, m, mf, adj, h, hi => by
-    simp only [instArgs, instParam, Bool.and_eq_true] at hi
+    simp only [instArgsG, instParamG, Bool.and_eq_true] at hi
     obtain ⟨m1, h1, hle1⟩ := inMatch_complete p c m mf h hi.1
     obtain ⟨m2, adj2, h2, hle2⟩ := matchArgs_complete' ps as m1 mf adj hle1 hi.2
     exact ⟨m2, adj2, by simp [matchArgs, h1, h2], hle2⟩
-  | .input _ :: _, .sc _ :: _, m, mf, adj, _, hi => by simp [instArgs, instParam] at hi
-  | .scalar sp :: _, .ts _ :: _, m, mf, adj, _, hi => by cases sp <;> simp [instArgs, instParam] at hi
+  | .input _ :: _, .sc _ :: _, m, mf, adj, _, hi => by simp [instArgsG, instParamG] at hi
+  | .scalar sp :: _, .ts _ :: _, m, mf, adj, _, hi => by cases sp <;> simp [instArgsG, instParamG] at hi
   | .scalar (.conc s) :: ps, .sc a :: as, m, mf, adj, h, hi => by
-    simp only [instArgs, instParam, Bool.and_eq_true, Bool.or_eq_true, decide_eq_true_eq] at hi
+    simp only [instArgsG, instParamG, Bool.and_eq_true, Bool.or_eq_true, decide_eq_true_eq] at hi
     simp only [matchArgs]
     by_cases heq : a = s
     · obtain ⟨m2, adj2, h2, hle2⟩ := matchArgs_complete' ps as m mf adj h hi.2
@@ -759,27 +825,27 @@ theorem matchArgs_complete' : ∀ (ps : List Param) (as : List Arg) (m mf : RMap
       obtain ⟨m2, adj2, h2, hle2⟩ := matchArgs_complete' ps as m mf (adj + 1) h hi.2
       exact ⟨m2, adj2, by simp [heq, hco, h2], hle2⟩
   | .scalar (.var n cs) :: ps, .sc a :: as, m, mf, adj, h, hi => by
-    simp only [instArgs, instParam, Bool.and_eq_true] at hi
+    simp only [instArgsG, instParamG, Bool.and_eq_true] at hi
     obtain ⟨m1, h1, hle1⟩ := scalarMatch_complete (p := .var n cs) h hi.1
     obtain ⟨m2, adj2, h2, hle2⟩ := matchArgs_complete' ps as m1 mf adj hle1 hi.2
     exact ⟨m2, adj2, by simp [matchArgs, h1, h2], hle2⟩
-  | [], _ :: _, m, mf, adj, _, hi => by simp [instArgs] at hi
-  | _ :: _, [], m, mf, adj, _, hi => by simp [instArgs] at hi
+  | [], _ :: _, m, mf, adj, _, hi => by simp [instArgsG] at hi
+  | _ :: _, [], m, mf, adj, _, hi => by simp [instArgsG] at hi
 
-theorem instArgs_length : ∀ (ps : List Param) (as : List Arg) (m : RMap), instArgs ps as m = true →
+theorem instArgs_length {x : Bool} : ∀ (ps : List Param) (as : List Arg) (m : RMap), instArgsG x ps as m = true →
     ps.length = as.length
   | [], [], _, _ => rfl
   | p :: ps, a :: as, m, h => by
-    simp only [instArgs, Bool.and_eq_true] at h
+    simp only [instArgsG, Bool.and_eq_true] at h
     simp [instArgs_length ps as m h.2]
-  | [], _ :: _, _, h => by simp [instArgs] at h
-  | _ :: _, [], _, h => by simp [instArgs] at h
+  | [], _ :: _, _, h => by simp [instArgsG] at h
+  | _ :: _, [], _, h => by simp [instArgsG] at h
 
 /-! ## REF transparency: `derefAll` forgets every way of wrapping in `REF` -/
 
 @[simp] theorem derefAll_stripRefs : ∀ c : CT, derefAll (stripRefs c) = derefAll c
   | .ref t => by simp [stripRefs, derefAll, derefAll_stripRefs t]
-  | .ts _ | .tss _ | .tsl _ _ | .tsd _ _ | .tsw _ _ _ | .tsb _ | .signal => by simp [stripRefs]
+  | .ts _ | .tss _ | .tsl _ _ | .tsd _ _ | .tsw _ _ _ | .tsb _ _ | .signal => by simp [stripRefs]
 
 @[simp] theorem derefAll_stripOne (c : CT) : derefAll (stripOne c) = derefAll c := by
   cases c <;> simp [stripOne, derefAll]
@@ -790,9 +856,9 @@ theorem instArgs_length : ∀ (ps : List Param) (as : List Arg) (m : RMap), inst
 /-- `stripRefs` returns something that is not a `REF` -/
 theorem stripRefs_not_ref : ∀ c t : CT, stripRefs c ≠ .ref t
   | .ref u, t => by simp only [stripRefs]; exact stripRefs_not_ref u t
-  | .ts _, _ | .tss _, _ | .tsl _ _, _ | .tsd _ _, _ | .tsw _ _ _, _ | .tsb _, _ | .signal, _ => by simp [stripRefs]
+  | .ts _, _ | .tss _, _ | .tsl _ _, _ | .tsd _ _, _ | .tsw _ _ _, _ | .tsb _ _, _ | .signal, _ => by simp [stripRefs]
 
-/-! ## equality up to the two wildcards of a resolved input type -/
+/-! ## equality up to the two wildcards of a resolved input type (and up to bundle names) -/
 
 mutual
 def wildEq : CT → CT → Bool
@@ -802,7 +868,7 @@ def wildEq : CT → CT → Bool
   | .tsl e n, .tsl e' n' => (decide (n = 0) || decide (n = n')) && wildEq e e'
   | .tsd k v, .tsd k' v' => decide (k = k') && wildEq v v'
   | .tsw s p mn, .tsw s' p' mn' => decide (s = s') && decide (p = p') && decide (mn = mn')
-  | .tsb fs, .tsb gs => wildEqFields fs gs
+  | .tsb _ fs, .tsb _ gs => wildEqFields fs gs
   | .ref t, .ref t' => wildEq t t'
   | _, _ => false
 def wildEqFields : CFields → CFields → Bool
@@ -817,11 +883,92 @@ theorem wildEq_refl : ∀ c : CT, wildEq c c = true
   | .ts _ | .tss _ | .tsw _ _ _ => by simp [wildEq]
   | .tsl e n => by simp [wildEq, wildEq_refl e]
   | .tsd k v => by simp [wildEq, wildEq_refl v]
-  | .tsb fs => by simp [wildEq, wildEqFields_refl fs]
+  | .tsb nm fs => by simp [wildEq, wildEqFields_refl fs]
   | .ref t => by simp [wildEq, wildEq_refl t]
 theorem wildEqFields_refl : ∀ fs : CFields, wildEqFields fs fs = true
   | .nil => by simp [wildEqFields]
   | .cons f t r => by simp [wildEqFields, wildEq_refl t, wildEqFields_refl r]
+end
+
+mutual
+/-- equivalent schemas are in particular equal up to wildcards -/
+theorem wildEq_of_equiv : ∀ a b : CT, equiv a b = true → wildEq a b = true
+  | .signal, _, _ => by simp [wildEq]
+  | .ts a, b, h => by cases b <;> simp_all [equiv, wildEq]
+  | .tss a, b, h => by cases b <;> simp_all [equiv, wildEq]
+  | .tsw _ _ _, b, h => by cases b <;> simp_all [equiv, wildEq]
+  | .tsl e n, b, h => by
+    cases b with
+    | tsl e' n' =>
+      simp only [equiv, Bool.and_eq_true, decide_eq_true_eq] at h
+      simp [wildEq, h.1, wildEq_of_equiv e e' h.2]
+    | _ => simp [equiv] at h
+  | .tsd k v, b, h => by
+    cases b with
+    | tsd k' v' =>
+      simp only [equiv, Bool.and_eq_true, decide_eq_true_eq] at h
+      simp [wildEq, h.1, wildEq_of_equiv v v' h.2]
+    | _ => simp [equiv] at h
+  | .tsb nm fs, b, h => by
+    cases b with
+    | tsb nm' gs =>
+      simp only [equiv] at h
+      simp [wildEq, wildEqFields_of_equiv fs gs h]
+    | _ => simp [equiv] at h
+  | .ref t, b, h => by
+    cases b with
+    | ref t' =>
+      simp only [equiv] at h
+      simp [wildEq, wildEq_of_equiv t t' h]
+    | _ => simp [equiv] at h
+theorem wildEqFields_of_equiv : ∀ fs gs : CFields, equivFields fs gs = true → wildEqFields fs gs = true
+  | .nil, .nil, _ => by simp [wildEqFields]
+  | .cons f t r, .cons g u s, h => by
+    simp only [equivFields, Bool.and_eq_true, decide_eq_true_eq] at h
+    simp [wildEqFields, h.1.1, wildEq_of_equiv t u h.1.2, wildEqFields_of_equiv r s h.2]
+  | .nil, .cons _ _ _, h => by simp [equivFields] at h
+  | .cons _ _ _, .nil, h => by simp [equivFields] at h
+end
+
+mutual
+/-- `time_series_schema_equivalent` is compatible with `TypeRegistry::dereference` -/
+theorem equiv_derefAll : ∀ a b : CT, equiv a b = true → equiv (derefAll a) (derefAll b) = true
+  | .signal, b, h => by cases b <;> simp_all [equiv, derefAll]
+  | .ts a, b, h => by cases b <;> simp_all [equiv, derefAll]
+  | .tss a, b, h => by cases b <;> simp_all [equiv, derefAll]
+  | .tsw _ _ _, b, h => by cases b <;> simp_all [equiv, derefAll]
+  | .tsl e n, b, h => by
+    cases b with
+    | tsl e' n' =>
+      simp only [equiv, Bool.and_eq_true, decide_eq_true_eq] at h
+      simp [derefAll, equiv, h.1, equiv_derefAll e e' h.2]
+    | _ => simp [equiv] at h
+  | .tsd k v, b, h => by
+    cases b with
+    | tsd k' v' =>
+      simp only [equiv, Bool.and_eq_true, decide_eq_true_eq] at h
+      simp [derefAll, equiv, h.1, equiv_derefAll v v' h.2]
+    | _ => simp [equiv] at h
+  | .tsb nm fs, b, h => by
+    cases b with
+    | tsb nm' gs =>
+      simp only [equiv] at h
+      simp [derefAll, equiv, equivFields_deref fs gs h]
+    | _ => simp [equiv] at h
+  | .ref t, b, h => by
+    cases b with
+    | ref t' =>
+      simp only [equiv] at h
+      simpa [derefAll] using equiv_derefAll t t' h
+    | _ => simp [equiv] at h
+theorem equivFields_deref : ∀ fs gs : CFields, equivFields fs gs = true →
+    equivFields (derefFields fs) (derefFields gs) = true
+  | .nil, .nil, _ => by simp [derefFields, equivFields]
+  | .cons f t r, .cons g u s, h => by
+    simp only [equivFields, Bool.and_eq_true, decide_eq_true_eq] at h
+    simp [derefFields, equivFields, h.1.1, equiv_derefAll t u h.1.2, equivFields_deref r s h.2]
+  | .nil, .cons _ _ _, h => by simp [equivFields] at h
+  | .cons _ _ _, .nil, h => by simp [equivFields] at h
 end
 
 mutual
@@ -830,7 +977,7 @@ def noWild : CT → Bool
   | .signal => false
   | .tsl e n => decide (n ≠ 0) && noWild e
   | .tsd _ v => noWild v
-  | .tsb fs => noWildFields fs
+  | .tsb _ fs => noWildFields fs
   | .ref t => noWild t
   | .ts _ => true
   | .tss _ => true
@@ -841,50 +988,113 @@ def noWildFields : CFields → Bool
 end
 
 mutual
-theorem wildEq_exact : ∀ d c : CT, noWild d = true → wildEq d c = true → d = c
+/-- without a wildcard, `wildEq` is `time_series_schema_equivalent`: same structure, same field names and
+    field types all the way down (bundle names aside) -/
+theorem wildEq_exact : ∀ d c : CT, noWild d = true → wildEq d c = true → equiv d c = true
   | .signal, _, hn, _ => by simp [noWild] at hn
-  | .ts a, c, _, h => by cases c <;> simp_all [wildEq]
-  | .tss a, c, _, h => by cases c <;> simp_all [wildEq]
-  | .tsw _ _ _, c, _, h => by cases c <;> simp_all [wildEq]
+  | .ts a, c, _, h => by cases c <;> simp_all [wildEq, equiv]
+  | .tss a, c, _, h => by cases c <;> simp_all [wildEq, equiv]
+  | .tsw _ _ _, c, _, h => by cases c <;> simp_all [wildEq, equiv]
   | .tsl e n, c, hn, h => by
     cases c with
     | tsl e' n' =>
       simp only [wildEq, noWild, Bool.and_eq_true, Bool.or_eq_true, decide_eq_true_eq] at h hn
-      have := wildEq_exact e e' hn.2 h.2
-      subst this
+      have ih := wildEq_exact e e' hn.2 h.2
       have : n = n' := by
         rcases h.1 with h0 | h0
         · exact absurd h0 hn.1
         · exact h0
-      subst this; rfl
+      simp [equiv, this, ih]
     | _ => simp [wildEq] at h
   | .tsd k v, c, hn, h => by
     cases c with
     | tsd k' v' =>
       simp only [wildEq, noWild, Bool.and_eq_true, decide_eq_true_eq] at h hn
-      have := wildEq_exact v v' hn h.2
-      subst this
-      rw [h.1]
+      simp [equiv, h.1, wildEq_exact v v' hn h.2]
     | _ => simp [wildEq] at h
-  | .tsb fs, c, hn, h => by
+  | .tsb nm fs, c, hn, h => by
     cases c with
-    | tsb gs =>
+    | tsb nm' gs =>
       simp only [wildEq, noWild] at h hn
-      rw [wildEqFields_exact fs gs hn h]
+      simp [equiv, wildEqFields_exact fs gs hn h]
     | _ => simp [wildEq] at h
   | .ref t, c, hn, h => by
     cases c with
     | ref t' =>
       simp only [wildEq, noWild] at h hn
-      rw [wildEq_exact t t' hn h]
+      simp [equiv, wildEq_exact t t' hn h]
     | _ => simp [wildEq] at h
-theorem wildEqFields_exact : ∀ fs gs : CFields, noWildFields fs = true → wildEqFields fs gs = true → fs = gs
-  | .nil, .nil, _, _ => rfl
+theorem wildEqFields_exact : ∀ fs gs : CFields, noWildFields fs = true → wildEqFields fs gs = true →
+    equivFields fs gs = true
+  | .nil, .nil, _, _ => by simp [equivFields]
   | .cons f t r, .cons g u s, hn, h => by
     simp only [wildEqFields, noWildFields, Bool.and_eq_true, decide_eq_true_eq] at h hn
-    rw [h.1.1, wildEq_exact t u hn.1 h.1.2, wildEqFields_exact r s hn.2 h.2]
+    simp [equivFields, h.1.1, wildEq_exact t u hn.1 h.1.2, wildEqFields_exact r s hn.2 h.2]
   | .nil, .cons _ _ _, _, h => by simp [wildEqFields] at h
   | .cons _ _ _, .nil, _, h => by simp [wildEqFields] at h
+end
+
+/-! ### on name-free schemas equivalence is identity -/
+
+mutual
+/-- no named bundle anywhere in the schema -/
+def nameless : CT → Bool
+  | .tsb nm fs => nm.isNone && namelessFields fs
+  | .tsl e _ => nameless e
+  | .tsd _ v => nameless v
+  | .ref t => nameless t
+  | .ts _ => true
+  | .tss _ => true
+  | .tsw _ _ _ => true
+  | .signal => true
+def namelessFields : CFields → Bool
+  | .nil => true
+  | .cons _ t r => nameless t && namelessFields r
+end
+
+mutual
+theorem equiv_eq_of_nameless : ∀ a b : CT, nameless a = true → nameless b = true → equiv a b = true → a = b
+  | .signal, b, _, _, h => by cases b <;> simp_all [equiv]
+  | .ts a, b, _, _, h => by cases b <;> simp_all [equiv]
+  | .tss a, b, _, _, h => by cases b <;> simp_all [equiv]
+  | .tsw _ _ _, b, _, _, h => by cases b <;> simp_all [equiv]
+  | .tsl e n, b, ha, hb, h => by
+    cases b with
+    | tsl e' n' =>
+      simp only [equiv, Bool.and_eq_true, decide_eq_true_eq] at h
+      simp only [nameless] at ha hb
+      rw [h.1, equiv_eq_of_nameless e e' ha hb h.2]
+    | _ => simp [equiv] at h
+  | .tsd k v, b, ha, hb, h => by
+    cases b with
+    | tsd k' v' =>
+      simp only [equiv, Bool.and_eq_true, decide_eq_true_eq] at h
+      simp only [nameless] at ha hb
+      rw [h.1, equiv_eq_of_nameless v v' ha hb h.2]
+    | _ => simp [equiv] at h
+  | .tsb nm fs, b, ha, hb, h => by
+    cases b with
+    | tsb nm' gs =>
+      simp only [equiv] at h
+      simp only [nameless, Bool.and_eq_true, Option.isNone_iff_eq_none] at ha hb
+      rw [ha.1, hb.1, equivFields_eq_of_nameless fs gs ha.2 hb.2 h]
+    | _ => simp [equiv] at h
+  | .ref t, b, ha, hb, h => by
+    cases b with
+    | ref t' =>
+      simp only [equiv] at h
+      simp only [nameless] at ha hb
+      rw [equiv_eq_of_nameless t t' ha hb h]
+    | _ => simp [equiv] at h
+theorem equivFields_eq_of_nameless : ∀ fs gs : CFields, namelessFields fs = true → namelessFields gs = true →
+    equivFields fs gs = true → fs = gs
+  | .nil, .nil, _, _, _ => rfl
+  | .cons f t r, .cons g u s, ha, hb, h => by
+    simp only [equivFields, Bool.and_eq_true, decide_eq_true_eq] at h
+    simp only [namelessFields, Bool.and_eq_true] at ha hb
+    rw [h.1.1, equiv_eq_of_nameless t u ha.1 hb.1 h.1.2, equivFields_eq_of_nameless r s ha.2 hb.2 h.2]
+  | .nil, .cons _ _ _, _, _, h => by simp [equivFields] at h
+  | .cons _ _ _, .nil, _, _, h => by simp [equivFields] at h
 end
 
 /-! ## substituting the bindings into a pattern gives the supplied type, up to REF transparency -/
@@ -902,14 +1112,15 @@ theorem substS_of_instS {p : SP} {m : RMap} {c a : Sc} (hi : instS p m c = true)
     simp only [substS, Option.some.injEq] at hs
     exact hs.symm.trans hi
 
-theorem accepts_spec {pc c : CT} (h : accepts pc c = true) : pc = .signal ∨ derefAll pc = derefAll c := by
+theorem accepts_spec {pc c : CT} (h : accepts pc c = true) :
+    pc = .signal ∨ equiv (derefAll pc) (derefAll c) = true := by
   unfold accepts at h
   split at h
   · exact Or.inl rfl
-  · exact Or.inr (by simpa using h)
+  · exact Or.inr h
 
 mutual
-theorem inst_subst_wild : ∀ (p : TP) (m : RMap) (c d : CT), inst p m c = true → subst p m = some d →
+theorem inst_subst_wild {x : Bool} : ∀ (p : TP) (m : RMap) (c d : CT), instG x p m c = true → subst p m = some d →
     wildEq (derefAll d) (derefAll c) = true
   | .signal, m, c, d, _, hs => by
     simp only [subst, Option.some.injEq] at hs
@@ -918,10 +1129,10 @@ theorem inst_subst_wild : ∀ (p : TP) (m : RMap) (c d : CT), inst p m c = true 
   | .ref t, m, c, d, hi, hs => by
     simp only [subst, Option.map_eq_some_iff] at hs
     obtain ⟨dt, hdt, rfl⟩ := hs
-    simp only [inst] at hi
+    simp only [instG] at hi
     simpa using inst_subst_wild t m _ dt hi hdt
   | .var n cs, m, c, d, hi, hs => by
-    simp only [inst, Bool.and_eq_true, decide_eq_true_eq] at hi
+    simp only [instG, Bool.and_eq_true, decide_eq_true_eq] at hi
     simp only [subst] at hs
     rw [hi.1] at hs
     cases hs
@@ -929,14 +1140,14 @@ theorem inst_subst_wild : ∀ (p : TP) (m : RMap) (c d : CT), inst p m c = true 
   | .conc pc, m, c, d, hi, hs => by
     simp only [subst, Option.some.injEq] at hs
     subst hs
-    simp only [inst] at hi
+    simp only [instG] at hi
     rcases accepts_spec hi with h | h
     · subst h; simp [derefAll, wildEq]
-    · rw [h]; simp [wildEq_refl]
+    · exact wildEq_of_equiv _ _ (by simpa using h)
   | .ts s, m, c, d, hi, hs => by
     simp only [subst, Option.map_eq_some_iff] at hs
     obtain ⟨a, ha, rfl⟩ := hs
-    simp only [inst] at hi
+    simp only [instG] at hi
     split at hi
     · rename_i b hb
       have := substS_of_instS hi ha
@@ -947,7 +1158,7 @@ theorem inst_subst_wild : ∀ (p : TP) (m : RMap) (c d : CT), inst p m c = true 
   | .tss s, m, c, d, hi, hs => by
     simp only [subst, Option.map_eq_some_iff] at hs
     obtain ⟨a, ha, rfl⟩ := hs
-    simp only [inst] at hi
+    simp only [instG] at hi
     split at hi
     · rename_i b hb
       have := substS_of_instS hi ha
@@ -960,7 +1171,7 @@ theorem inst_subst_wild : ∀ (p : TP) (m : RMap) (c d : CT), inst p m c = true 
     split at hs
     · rename_i ce n hce hn
       cases hs
-      simp only [inst] at hi
+      simp only [instG] at hi
       split at hi
       · rename_i ce' n' hc
         simp only [Bool.and_eq_true] at hi
@@ -985,7 +1196,7 @@ theorem inst_subst_wild : ∀ (p : TP) (m : RMap) (c d : CT), inst p m c = true 
     split at hs
     · rename_i ck cv hck hcv
       cases hs
-      simp only [inst] at hi
+      simp only [instG] at hi
       split at hi
       · rename_i ck' cv' hc
         simp only [Bool.and_eq_true] at hi
@@ -1001,7 +1212,7 @@ theorem inst_subst_wild : ∀ (p : TP) (m : RMap) (c d : CT), inst p m c = true 
     split at hs
     · rename_i _ _ a p mn hsa
       cases hs
-      simp only [inst] at hi
+      simp only [instG] at hi
       split at hi
       · rename_i a' period minp hc
         simp only [Bool.and_eq_true] at hi
@@ -1013,29 +1224,32 @@ theorem inst_subst_wild : ∀ (p : TP) (m : RMap) (c d : CT), inst p m c = true 
         simp [derefAll, wildEq, hwin.1, hwin.2]
       · cases hi
     · cases hs
-  | .tsb fs, m, c, d, hi, hs => by
+  | .tsb pn fs, m, c, d, hi, hs => by
     simp only [subst, Option.map_eq_some_iff] at hs
     obtain ⟨dfs, hdfs, rfl⟩ := hs
-    simp only [inst] at hi
+    simp only [instG] at hi
     split at hi
-    · rename_i cfs hc
-      have ih := instFields_subst_wild fs m cfs dfs hi hdfs
+    · rename_i cn cfs hc
+      simp only [Bool.and_eq_true] at hi
+      have ih := instFields_subst_wild fs m cfs dfs hi.2 hdfs
       rw [← derefAll_stripRefs c, hc]
       simpa [derefAll, wildEq] using ih
     · cases hi
   | .tsbVar n, m, c, d, hi, hs => by
-    simp only [inst] at hi
+    simp only [instG] at hi
     split at hi
-    · rename_i cfs hc
-      simp only [decide_eq_true_eq] at hi
-      simp only [subst] at hs
-      rw [hi] at hs
-      cases hs
-      rw [← derefAll_stripRefs c, hc]
-      exact wildEq_refl _
+    · rename_i cn cfs hc
+      split at hi
+      · rename_i b hb
+        simp only [subst] at hs
+        rw [hb] at hs
+        cases hs
+        rw [← derefAll_stripRefs c, hc]
+        exact wildEq_of_equiv _ _ (equiv_derefAll _ _ (svOk_equiv hi))
+      · cases hi
     · cases hi
-theorem instFields_subst_wild : ∀ (fs : PFields) (m : RMap) (cfs dfs : CFields),
-    instFields fs m cfs = true → substFields fs m = some dfs →
+theorem instFields_subst_wild {x : Bool} : ∀ (fs : PFields) (m : RMap) (cfs dfs : CFields),
+    instFieldsG x fs m cfs = true → substFields fs m = some dfs →
     wildEqFields (derefFields dfs) (derefFields cfs) = true
   | .nil, m, .nil, dfs, _, hs => by
     simp only [substFields, Option.some.injEq] at hs
@@ -1046,18 +1260,19 @@ theorem instFields_subst_wild : ∀ (fs : PFields) (m : RMap) (cfs dfs : CFields
     split at hs
     · rename_i d drest hd hdrest
       cases hs
-      simp only [instFields, Bool.and_eq_true, decide_eq_true_eq] at hi
+      simp only [instFieldsG, Bool.and_eq_true, decide_eq_true_eq] at hi
       have a := inst_subst_wild p m c d hi.1.2 hd
       have b := instFields_subst_wild rest m crest drest hi.2 hdrest
       simp [derefFields, wildEqFields, hi.1.1, a, b]
     · cases hs
-  | .nil, m, .cons _ _ _, dfs, hi, _ => by simp [instFields] at hi
-  | .cons _ _ _, m, .nil, dfs, hi, _ => by simp [instFields] at hi
+  | .nil, m, .cons _ _ _, dfs, hi, _ => by simp [instFieldsG] at hi
+  | .cons _ _ _, m, .nil, dfs, hi, _ => by simp [instFieldsG] at hi
 end
 
-/-- the resolved parameter type equals the supplied one after dereferencing, when it has no wildcard -/
-theorem inst_subst_noWild {p : TP} {m : RMap} {c d : CT} (hi : inst p m c = true) (hs : subst p m = some d)
-    (hn : noWild (derefAll d) = true) : derefAll d = derefAll c :=
+/-- the resolved parameter type is equivalent (same structure, same fields) to the supplied one after
+    dereferencing, when it has no wildcard -/
+theorem inst_subst_noWild {x : Bool} {p : TP} {m : RMap} {c d : CT} (hi : instG x p m c = true)
+    (hs : subst p m = some d) (hn : noWild (derefAll d) = true) : equiv (derefAll d) (derefAll c) = true :=
   wildEq_exact _ _ hn (inst_subst_wild p m c d hi hs)
 
 /-! ## the stable sort and the decision step -/
